@@ -1645,7 +1645,7 @@ int EGLPNUM_TYPENAME_ILLlib_delcols (
 
 	for (i = 0; i < num; i++)
 	{
-		if (dellist[i] < 0 || dellist[i] >= ncols) {
+		if (dellist[i] < 0 || dellist[i] >= qslp->nstruct) {
 			rval = 1;
 			ILL_CLEANUP;
 		}
